@@ -247,3 +247,56 @@ def test_close_with_unsent_data_defers_connection_lost():
         assert log == [("made",), ("lost", "NoneType")]
     finally:
         vl.shutdown()
+
+
+def test_write_eof_fails_while_a_reset_is_pending():
+    """Grounds MemTransport.write_eof with a pending RST against a real TCP socket: the kernel has the peer's RST, the loop has not polled yet."""
+    import asyncio
+    import errno
+    import socket
+    import struct
+    import time
+
+    from vt import vloop
+
+    async def real():
+        srv = socket.socket()
+        srv.bind(("127.0.0.1", 0))
+        srv.listen(1)
+        loop = asyncio.get_running_loop()
+        tr, _ = await loop.create_connection(asyncio.Protocol, "127.0.0.1", srv.getsockname()[1])
+        c, _ = srv.accept()
+        c.setsockopt(socket.SOL_SOCKET, socket.SO_LINGER, struct.pack("ii", 1, 0))
+        c.close()
+        time.sleep(0.05)
+        try:
+            tr.write_eof()
+            got = None
+        except OSError as e:
+            got = e.errno
+        tr.abort()
+        srv.close()
+        return got
+
+    try:
+        real_errno = asyncio.run(real())
+    except OSError:
+        return  # no loopback in this sandbox: nothing to ground against
+    assert real_errno == errno.ENOTCONN, real_errno
+
+    loop = vloop.VirtualLoop().install()
+    try:
+        net = vloop.SimNet(loop)
+        att = {"t": 0, "hosts": ["h"], "port": 1, "fut": loop.create_future(), "outcome": None}
+        conn = net.accept(att, "h")
+        tr = vloop.MemTransport(loop, asyncio.Protocol(), att["fut"].result())
+        loop.run_until_idle()
+        conn.peer_reset_arrives()
+        try:
+            tr.write_eof()
+            got = None
+        except OSError as e:
+            got = e.errno
+        assert got == errno.ENOTCONN
+    finally:
+        loop.shutdown()
